@@ -59,8 +59,64 @@ def unsafe_doc(classes):
     return False
 
 
+def explicit_titles(j, acc=None):
+    acc = [] if acc is None else acc
+    if isinstance(j, dict):
+        if isinstance(j.get("title"), str):
+            acc.append(j["title"])
+        for v in j.values():
+            explicit_titles(v, acc)
+    elif isinstance(j, list):
+        for v in j:
+            explicit_titles(v, acc)
+    return acc
+
+
+def predicted_autotitles(doc, stem="main"):
+    """the automatic titles of the untitled object schemas of a document, computed HERE (the rule of Titles.v) from their positions"""
+    def auto(segs):
+        if not segs:
+            return stem
+        t = segs[-1]
+        if t == "items":
+            return auto(segs[:-1]) + "Item"
+        if t.isdigit():
+            return auto(segs[:-1]) + t
+        if t in ("anyOf", "oneOf", "allOf", "not"):
+            return auto(segs[:-1])
+        return t
+    out = []
+
+    def visit(s, segs):
+        if not isinstance(s, dict) or "$ref" in s:
+            return
+        if s.get("type") == "object" or (isinstance(s.get("type"), list) and "object" in s["type"]):
+            if not isinstance(s.get("title"), str):
+                out.append(auto(segs))
+        for k in ("properties", "patternProperties", "dependencies", "definitions"):
+            if isinstance(s.get(k), dict):
+                for name, sub in s[k].items():
+                    visit(sub, segs + [k, name])
+        for k in ("additionalItems", "additionalProperties", "contains", "propertyNames", "not"):
+            visit(s.get(k), segs + [k])
+        if isinstance(s.get("items"), list):
+            for i, sub in enumerate(s["items"]):
+                visit(sub, segs + ["items", str(i)])
+        else:
+            visit(s.get("items"), segs + ["items"])
+        for k in ("anyOf", "oneOf", "allOf"):
+            if isinstance(s.get(k), list):
+                for i, sub in enumerate(s[k]):
+                    visit(sub, segs + [k, str(i)])
+    visit(doc, [])
+    return out
+
+
 def known_name_issue(classes, schema):
-    if any(k3(c.__name__) for c in classes):
+    # K3: a class name that is empty / a constant / an imported name.  The excuse is granted only when the names PREDICTED here from the
+    # document (written titles and automatic titles, through the harness's own copy of the formatting rule) contain such a name
+    predicted = [findings.title_format(t) for t in explicit_titles(schema) + (predicted_autotitles(schema) if isinstance(schema, dict) else [])]
+    if any(k3(c.__name__) for c in classes) and any(k3(n) for n in predicted):
         return "C02-K3"
     if any(k2(p.source or "") for c in classes for p in c.properties.values()):
         return "C02-K2"
@@ -154,6 +210,16 @@ EXPECTED["equal-wrappers"] = (
                    "definitions": {"Cat": {"type": "object", "properties": {"name": {"type": "string"}}},
                                    "Dog": {"type": "object", "properties": {"name": {"type": "string"}}}}}},
     [({"cats": [{"name": "a"}], "dogs": [{"name": "b"}], "birds": [{"name": "c"}]}, True), ({"dogs": [{"name": 1}]}, False), ({"birds": [1]}, False)])
+
+
+EXPECTED["digit-keys"] = (
+    {"main.json": {"title": "Ledger", "type": "object",
+                   "properties": {"1": {"type": "object", "properties": {"a": {"type": "integer"}}}, "007": {"type": "object", "properties": {"b": {"type": "null"}}},
+                                  "latest": {"$ref": "#/definitions/2020"}},
+                   "patternProperties": {"^x9": {"type": "object", "properties": {"c": {"type": "string"}}}},
+                   "definitions": {"2020": {"type": "object", "properties": {"total": {"type": "number"}}}}}},
+    [({"1": {"a": 1}, "latest": {"total": 1.5}}, True), ({"1": {"a": "x"}}, False), ({"latest": {"total": "x"}}, False), ({"007": {"b": None}, "x99": {"c": "s"}}, True),
+     ({"x99": {"c": 1}}, False)])
 
 
 def second_generation():
